@@ -166,7 +166,22 @@ func Plan(r *rand.Rand, o PlanOpts) *InnerPlan {
 		outer.SID = RandBytes(r, o.SIDLen)
 	}
 	// outer extension list: SNI(public name), supported_versions, opaque ones, in random order
-	oexts := []Ext{SNI(o.PublicName), Versions(0x0304, 0x0303)}
+	// supported_versions as other stacks write it: an RFC 8701 GREASE value may come first
+	grease := func() uint16 { g := uint16(r.IntN(16))<<4 | 0x0a; return g<<8 | g }
+	overs := []uint16{0x0304, 0x0303}
+	ivers := []uint16{0x0304}
+	if r.IntN(3) == 0 {
+		overs = append([]uint16{grease()}, overs...)
+	}
+	if r.IntN(3) == 0 {
+		ivers = append([]uint16{grease()}, ivers...)
+	}
+	oexts := []Ext{SNI(o.PublicName), Versions(overs...)}
+	if r.IntN(3) == 0 {
+		// the outer hello may offer ALPN of its own; it says nothing about the inner one
+		oexts = append(oexts, ALPN("h2", "http/1.1"))
+		used[16] = true
+	}
 	for i := 0; i < o.NOuterOpaque; i++ {
 		oexts = append(oexts, RandomExt(r, used, o.MaxExtLen))
 	}
@@ -176,8 +191,8 @@ func Plan(r *rand.Rand, o PlanOpts) *InnerPlan {
 	var refs []uint16
 	k := 0
 	for _, e := range oexts {
-		if e.Type == 0 {
-			continue
+		if e.Type == 0 || e.Type == 16 {
+			continue // the inner hello keeps its own server name and ALPN
 		}
 		if e.Type == 43 {
 			if o.RefOuterVersions {
@@ -194,9 +209,12 @@ func Plan(r *rand.Rand, o PlanOpts) *InnerPlan {
 	inner.Version = 0x0303
 	inner.SID = nil
 	inner.Random = RandBytes(r, 32)
-	iexts := []Ext{SNI(o.InnerName), ECHInner()}
+	iexts := []Ext{ECHInner()}
+	if o.InnerName != "" {
+		iexts = append(iexts, SNI(o.InnerName))
+	}
 	if !o.RefOuterVersions {
-		iexts = append(iexts, Versions(0x0304))
+		iexts = append(iexts, Versions(ivers...))
 	}
 	if len(o.ALPN) > 0 {
 		iexts = append(iexts, ALPN(o.ALPN...))
@@ -212,7 +230,7 @@ func Plan(r *rand.Rand, o PlanOpts) *InnerPlan {
 	} else {
 		refs = nil
 		if o.RefOuterVersions {
-			iexts = append(iexts, Versions(0x0304))
+			iexts = append(iexts, Versions(ivers...))
 		}
 	}
 	inner.Exts = iexts
